@@ -127,7 +127,7 @@ let exec toks =
       let h3 = shift_suit_hand h2 in
       let eqr a = match (a, v0) with Ok x, Ok y -> s_b (x = y) | _ -> "P" in
       String.concat " " (List.map (fun h -> eqr (hand_rank_value c h)) [ h1; h2; h3 ] @ [ s_b (shift_suit_hand h3 = ws) ])
-  | "chain7" -> (
+  | "chain7" | "chain7s" -> (
       let ws = nums () in
       let skip l k = List.filteri (fun i _ -> i <> k) l in
       let le a b = Int64.unsigned_compare (int64_of_n a) (int64_of_n b) <= 0 in
